@@ -172,10 +172,67 @@ def evalFinal (set : List Nat) (p : Nat) : Final → Bool
 def isTrusted (sh : ConsensusShape) (cfg : TrustCfg) (self : Nat) (set : List Nat) (p : Nat) : Bool :=
   sh.guards.any (evalGuard cfg self p) || evalFinal set p sh.final
 
-/-- `IsTrustedPeer(p)` after configuration `raw` and the calls `ops` -/
-def trustedAfter (sh : ConsensusShape) (raw : List (Option Nat)) (ops : List TOp) (self p : Nat) : Bool :=
-  let cfg := parseTrusted raw []
+/-- `IsTrustedPeer(p)` of a component started with configuration `cfg`, after the calls `ops` -/
+def trustedAfterCfg (sh : ConsensusShape) (cfg : TrustCfg) (ops : List TOp) (self p : Nat) : Bool :=
   isTrusted sh cfg self (stateAfter sh cfg ops) p
+
+/-- `IsTrustedPeer(p)` after loading the list `raw` and the calls `ops` -/
+def trustedAfter (sh : ConsensusShape) (raw : List (Option Nat)) (ops : List TOp) (self p : Nat) : Bool :=
+  trustedAfterCfg sh (parseTrusted raw []) ops self p
+
+/-! ## where the configuration comes from (consensus/crdt/config.go)
+
+`Default()`, `LoadJSON(file)`, `ApplyEnvVars()` (with `CLUSTER_CRDT_TRUSTEDPEERS` unset or set to a
+comma-separated list) and `ToJSON()`. `ApplyEnvVars` renders the current configuration to its JSON
+form, lets the environment overwrite fields, and runs the same `applyJSONConfig` as `LoadJSON`. -/
+
+inductive Source where
+  | default                                   -- `cfg.Default()`
+  | load (raw : List (Option Nat))            -- `cfg.LoadJSON` of a file whose trusted_peers is `raw`
+  | env (v : Option (List (Option Nat)))      -- `cfg.ApplyEnvVars()`; `none`: the variable is unset
+  deriving Repr, DecidableEq
+
+/-- what the translator reads off config.go -/
+structure CfgShape where
+  /-- `DefaultTrustAll` (and `DefaultTrustedPeers` is empty) -/
+  defaultTrustAll : Bool
+  /-- `LoadJSON` calls `cfg.Default()` before applying the file -/
+  loadDefaults : Bool
+  /-- `LoadJSON` itself assigns `cfg.TrustAll = false` before applying the file -/
+  loadResetsTrustAll : Bool
+  /-- `applyJSONConfig` starts with `cfg.TrustAll = false` -/
+  applyResetsTrustAll : Bool
+  /-- `applyJSONConfig` starts with `cfg.TrustedPeers = []peer.ID{}` -/
+  applyResetsPeers : Bool
+  deriving Repr
+
+/-- the loop of `applyJSONConfig`: "*" sets TrustAll, empties the list and stops; ids are appended -/
+def loopTrusted (ta : Bool) : List (Option Nat) → List Nat → TrustCfg
+  | [], acc => { trustAll := ta, listed := acc.reverse }
+  | none :: _, _ => { trustAll := true, listed := [] }
+  | some p :: rest, acc => loopTrusted ta rest (p :: acc)
+
+def applyJSON (sh : CfgShape) (st : TrustCfg) (raw : List (Option Nat)) : TrustCfg :=
+  loopTrusted (if sh.applyResetsTrustAll then false else st.trustAll) raw
+    (if sh.applyResetsPeers then [] else st.listed.reverse)
+
+/-- `toJSONConfig`: `["*"]` when TrustAll, else the list -/
+def toJSONTrust (st : TrustCfg) : List (Option Nat) :=
+  if st.trustAll then [none] else st.listed.map some
+
+def defaultCfg (sh : CfgShape) : TrustCfg := { trustAll := sh.defaultTrustAll, listed := [] }
+
+def cfgStep (sh : CfgShape) (st : TrustCfg) : Source → TrustCfg
+  | .default => defaultCfg sh
+  | .load raw =>
+    let d := if sh.loadDefaults then defaultCfg sh else st
+    applyJSON sh (if sh.loadResetsTrustAll then { d with trustAll := false } else d) raw
+  | .env none => applyJSON sh st (toJSONTrust st)
+  | .env (some raw) => applyJSON sh st raw
+
+/-- TrustAll / TrustedPeers of a zero `Config` after the sources, in order -/
+def trustOf (sh : CfgShape) (srcs : List Source) : TrustCfg :=
+  srcs.foldl (cfgStep sh) { trustAll := false, listed := [] }
 
 /-! ## callers and the RPC server -/
 
@@ -187,11 +244,11 @@ inductive Caller where
 /-- does a call from `caller` to `ep` pass the authorization step? `self`: in-process, no check.
     `guarded`: the server was created with the closure installed (`rpc.WithAuthorizeFunc`);
     a server without it lets every remote call through. -/
-def passes (guarded : Bool) (cl : Closure) (pol : Policy) (sh : ConsensusShape) (raw : List (Option Nat)) (ops : List TOp)
+def passes (guarded : Bool) (cl : Closure) (pol : Policy) (sh : ConsensusShape) (cfg : TrustCfg) (ops : List TOp)
     (self : Nat) (caller : Caller) (ep : String) : Bool :=
   match caller with
   | .self => true
-  | .remote p => !guarded || authorizeWith cl pol (trustedAfter sh raw ops self p) ep
+  | .remote p => !guarded || authorizeWith cl pol (trustedAfterCfg sh cfg ops self p) ep
 
 /-! ## pubsub delivery of pinset updates (CRDT) -/
 
